@@ -254,8 +254,11 @@ type WebseedActor struct {
 	rng  *simrt.Rand
 	mu   sync.Mutex
 	Reqs []RangeReq
-	ln   net.Listener
-	srv  *http.Server
+	// Active: requests being answered right now; Contacted: at least one request arrived.
+	Active    int
+	Contacted bool
+	ln        net.Listener
+	srv       *http.Server
 }
 
 func (w *WebseedActor) Start(seed uint64) {
@@ -269,7 +272,18 @@ func (w *WebseedActor) Start(seed uint64) {
 	}
 	w.ln = ln
 	w.URL = "http://" + ln.Addr().String() + "/ws/"
-	w.srv = &http.Server{Handler: http.HandlerFunc(w.handle)}
+	w.srv = &http.Server{Handler: http.HandlerFunc(func(rw http.ResponseWriter, r *http.Request) {
+		w.mu.Lock()
+		w.Active++
+		w.Contacted = true
+		w.mu.Unlock()
+		defer func() {
+			w.mu.Lock()
+			w.Active--
+			w.mu.Unlock()
+		}()
+		w.handle(rw, r)
+	})}
 	simrt.Go(w.Host, func() { w.srv.Serve(ln) })
 }
 
